@@ -176,7 +176,23 @@ func tupleProgram(c *Ctx) ([]symIns, *ssa.Function, *ssa.Call) {
 		R.Fail("R12.1", fn+"#assemble", f.Pos(), fn, "no call to bpf.Assemble found: anchor lost")
 		return nil, f, nil
 	}
+	// the literal may be built by a straight-line helper (`bpf.Assemble(tuple.program())`): it is read there and its symbolic
+	// operands are lifted into the generator's frame
+	litFn := f
+	var viaCall *ssa.Call
 	sl, ok := asm.Common().Args[0].(*ssa.Slice)
+	if !ok {
+		if call, isCall := asm.Common().Args[0].(*ssa.Call); isCall && call.Common().StaticCallee() != nil {
+			g := call.Common().StaticCallee()
+			if core.InModule(g) && len(g.Blocks) >= 1 && len(g.Blocks) <= 2 {
+				if ret, isRet := g.Blocks[0].Instrs[len(g.Blocks[0].Instrs)-1].(*ssa.Return); isRet && len(ret.Results) == 1 {
+					if gsl, isSl := ret.Results[0].(*ssa.Slice); isSl {
+						sl, ok, litFn, viaCall = gsl, true, g, call
+					}
+				}
+			}
+		}
+	}
 	if !ok {
 		R.Fail("R12.1", fn+"#program", asm.Pos(), fn, "bpf.Assemble is not given a slice literal: undecided")
 		return nil, f, asm
@@ -192,7 +208,22 @@ func tupleProgram(c *Ctx) ([]symIns, *ssa.Function, *ssa.Call) {
 		R.Fail("R12.1", fn+"#program", asm.Pos(), fn, "bpf.Assemble unreachable")
 		return nil, f, asm
 	}
-	env := core.NewEnv(c.P, paths[0])
+	outerEnv := core.NewEnv(c.P, paths[0])
+	env := outerEnv
+	if litFn != f {
+		env = core.NewEnv(c.P, core.NewPath(litFn, litFn.Blocks[:1]))
+	}
+	liftSym := func(t *core.Term) *core.Term {
+		if viaCall == nil || t == nil {
+			return t
+		}
+		t = liftWithEnv(outerEnv, t, viaCall)
+		// a field of a struct-valued helper result (`c.bpfTuple()#0.srcAddr`): the value on the helper's success path
+		if alts := projectCallResult(c.P, t); len(alts) == 1 && alts[0].t != nil {
+			t = alts[0].t
+		}
+		return t
+	}
 	elem := map[int]*core.Term{}
 	for _, r := range *arr.Referrers() {
 		ia, ok := r.(*ssa.IndexAddr)
@@ -251,7 +282,7 @@ func tupleProgram(c *Ctx) ([]symIns, *ssa.Function, *ssa.Call) {
 			if v, isC := constInt(kvOf(t, "Val")); isC {
 				si.ins.K = uint32(v)
 			} else {
-				si.sym = kvOf(t, "Val")
+				si.sym = liftSym(kvOf(t, "Val"))
 			}
 		default:
 			okc = false
@@ -373,6 +404,9 @@ func evalBytes(t *core.Term, cfg filterCfg) ([]byte, error) {
 			}
 			return cfg.dst[:], nil
 		}
+	}
+	if t.Op == "call" && (t.Name == "(netip.Addr).As4") && len(t.Args) == 1 {
+		return evalBytes(&core.Term{Op: "call", Name: "(netip.Addr).AsSlice", Args: t.Args}, cfg)
 	}
 	if t.Op == "slice" {
 		return evalBytes(t.Args[0], cfg)
@@ -784,19 +818,21 @@ func checkTupleProvenance(c *Ctx, prog []symIns, f *ssa.Function, asm *ssa.Call)
 	ok := len(paths) > 0
 	for _, pa := range paths {
 		env := core.NewEnv(c.P, pa)
-		s4, d4 := false, false
-		for _, a := range env.Atoms() {
-			n := a.Norm()
-			str := n.Cond.String()
-			if n.Sign && strings.Contains(str, ".Is4(") && strings.Contains(str, "recv.Src") {
-				s4 = true
+		for _, atoms := range openSuccessConds(c.P, env.Atoms(), 0) {
+			s4, d4 := false, false
+			for _, a := range atoms {
+				n := a.Norm()
+				str := n.Cond.String()
+				if n.Sign && strings.Contains(str, ".Is4(") && strings.Contains(str, "recv.Src") {
+					s4 = true
+				}
+				if n.Sign && strings.Contains(str, ".Is4(") && strings.Contains(str, "recv.Dst") {
+					d4 = true
+				}
 			}
-			if n.Sign && strings.Contains(str, ".Is4(") && strings.Contains(str, "recv.Dst") {
-				d4 = true
+			if !s4 || !d4 {
+				ok = false
 			}
-		}
-		if !s4 || !d4 {
-			ok = false
 		}
 	}
 	R.Check(ok, "R12.2", fn+"#ipv4-only", asm.Pos(), fn, "Assemble is reached only when both endpoints are IPv4", "the program is assembled without both endpoints having been checked to be IPv4")
